@@ -122,6 +122,10 @@ func (p *IdentityProvider) attributeQueryHandleFunc(w http.ResponseWriter, r *ht
 	attrs := &Attributes{}
 	checkerInstance.WithLogicStep(
 		func() error {
+			if attrQuery.Subject.NameID == nil {
+				err = fmt.Errorf("subject is missing in request")
+				return err
+			}
 			if err := p.storage.SetUserinfoWithLoginName(r.Context(), attrs, attrQuery.Subject.NameID.Text, []int{}); err != nil {
 				return err
 			}
